@@ -54,6 +54,9 @@ Definition blen_ok (o : option Z) (bound : Z) : bool :=
   match o with Some x => bitlen x <=? bound | None => false end.
 
 (* proof.go:388 VerifyProofStructure *)
+Definition coprime_ok (o : option Z) (n : Z) : bool :=
+  match o with Some c => Z.gcd c n =? 1 | None => false end.
+
 Definition verify_proof_structure (pk : pubkey) (s : rstruct) (p : rproof) : bool :=
   let ps := pk_params pk in
   let n := rs_n s in
@@ -64,7 +67,9 @@ Definition verify_proof_structure (pk : pubkey) (s : rstruct) (p : rproof) : boo
   forallb (fun i =>
     blen_ok (nth_ptr (rp_Cs p) i) (bitlen (pk_N pk)) &&
     blen_ok (nth_ptr (rp_Ds p) i) (rs_ld s + Lh ps + Lstatzk ps + 1) &&
-    blen_ok (nth_ptr (rp_Vs p) i) (Lm ps + Lh ps + Lstatzk ps + 1)) (zrange n).
+    blen_ok (nth_ptr (rp_Vs p) i) (Lm ps + Lh ps + Lstatzk ps + 1) &&
+    (* the commitments must be invertible modulo N (a C_i that is 0 modulo N makes its relations hold vacuously) *)
+    coprime_ok (nth_ptr (rp_Cs p) i) (pk_N pk)) (zrange n).
 
 Definition rp_bases (pk : pubkey) (p : rproof) (b : bname) : option Z :=
   match pk_base pk b with
